@@ -11,6 +11,11 @@ Families (sub-commands of harness/src/fsolve.rs and ocaml/fsolve_cmd.ml):
                            relates a float variable to another variable must be covered by a propagator that can act on
                            floats (structural reading of "never silently ignored"); the lowering DECISION (IntLin* or
                            FloatLin* per linear post) is a Coq function (linear_lowering) compared with the lowered model.
+  farith_random   solvef   the ARITHMETIC and ELEMENT routes on float / mixed operands: m.add/sub/mul/div/abs/min/max/sum (variable and
+                           Val operands), array_float_minimum/maximum/element, element over a float array with an integer index,
+                           non-linear fluent expressions (x.mul(y), x.div(y), x.mul(y).add(z).le(c), expression == variable) with
+                           their hidden auxiliary variables; result handles feed further posts and linear rows.  ORACLE-ONLY:
+                           z = f(operands) judged in exact rationals within the tolerance derived in vlib/fmodel.py.
   fprop_exact     propf    props-level float propagators (FloatLinEq/Le/Ne, LessThanOrEquals/Eq with float operands):
                            extracted Coq model (coq/Model/FloatProps.v) == implementation, bit for bit.
   fsearch_exact   searchf  props-level float/mixed search (propagation + bisection): extracted model
@@ -25,7 +30,8 @@ TRUSTED_BASE = [
     "Coq 8.16.1 kernel (coqc full .vo build); vm_compute for closed witnesses",
     "Flocq 4.1.0 as installed; its theorems depend on the standard library's real-number axioms (ClassicalDedekindReals.sig_forall_dec, sig_not_dec, FunctionalExtensionality.functional_extensionality_dep, Classical_Prop.classic where listed)",
     "hand-written bit-exact models coq/Model/FloatProps.v (props/linear.rs:460-810, leq.rs, eq.rs over float views) and coq/Model/FloatSearch.v (search/{mod,branch,mode}.rs on float/mixed stores) over Model/{B64,FloatInterval,CtxFloat}.v: modelled, not verified; tied by this run's bit-for-bit differentials (families fprop_exact, fsearch_exact)",
-    "the Model-level float path (runtime_api lowering of float constraints, Model::minimize/maximize dispatch, root LP step, optimisation fast path) is NOT modelled in Coq: families fsolve_random and flower_cover are oracle-only",
+    "the Model-level float path (runtime_api lowering of float constraints, Model::minimize/maximize dispatch, root LP step, optimisation fast path) is NOT modelled in Coq: families fsolve_random, flower_cover and farith_random are oracle-only",
+    "arithmetic / element / non-linear fluent routes (family farith_random): m.add/sub/mul/div/abs/min/max/sum, array_float_minimum/maximum/element, ModelExt::elem and fluent x.mul(y) / x.div(y) trees are judged by z = f(operands) in exact rationals within tol_f = spread_f + w(s) + P(s) + 2^-40*magnitude (W = 3/2 step, P(s) = max(3 step, 1e-5(|s|+W)); spreads per operation and the error propagation through hidden auxiliary variables: docstring of vlib/fmodel.py); of these propagators only Add / Sub have a Coq model (Model/FloatProps.v prune_fadd, tied bit for bit by fprop_exact kinds add / sub); Mul, Div, Abs, Min, Max, Sum, Element on floats are NOT modelled",
     "this run's exact-rational judge vlib/fmodel.py (fractions.Fraction on f64 bit patterns) with the tolerance derived in its docstring: tol(row) = sum_{float j}|c_j|*(5*step + 1e-5*B_j) + 2^-40*(|K| + sum|c_j|*B_j)",
     "extraction ExtrOcamlBasic + ExtrOcamlNatInt, no Extract Constant of our own; ocaml/fsolve_cmd.ml glue; Rust harness harness/src/fsolve.rs (hooks H2, H5)",
 ]
@@ -35,9 +41,13 @@ ASSUMPTIONS = [
     "theorems float_values_in_bounds / float_lin_le_fixpoint_within_tol carry the magnitude hypothesis magn_b of C12F (|values| <= 2^50*step, 2^-60 <= step <= 2^60)",
     "NOT proved: numerical closeness of the binary64 accumulation in FloatLin* to the exact-rational reading beyond one pruning step (declared gap); the tolerance formula itself is validated only by this run's judge",
 ]
+RULE_ARITH = ("farith_random: 2-4 declared variables (float; ~22 % int; bounds on and off the step grid, zero-crossing, negative, single-valued, magnitudes 1e3..1e6 at precisions 1..3), "
+              "1-3 arithmetic posts chained through their result handles (add sub mul div abs min max sum fmin fmax with variable and Val operands; element posts through all three routes with a "
+              "partly out-of-range index; non-linear fluent constraints mul / div / mul+add / nested, compared with constants and with variables), 0-2 linear rows or bounds on results; divisors "
+              "keep |y| >= 1/2; every node stays below 2^45 steps in magnitude")
 RULE = ("random float/mixed models (1-4 variables, 0-4 constraints, bounds multiples of 1/2, coefficients multiples of 1/4 plus a share of non-dyadic values, precisions 1..12) "
         "posted through every route; a returned assignment must keep every float value inside its declared bounds +- step, every int value inside its domain, and satisfy every posted "
-        "constraint within tol(row); non-trivial = a solution was returned")
+        "constraint within tol(row); non-trivial = a solution was returned; " + RULE_ARITH)
 
 # ------------------------------------------------------------------------------------------------ generator
 def rand_point(rng, decls, step):
@@ -170,6 +180,9 @@ def failing(case, impl):
         if k == "I":
             if kk != "I" or not (lo <= v <= hi):
                 out.append(("int variable x%d = %s outside its declared domain" % (i, v), None))
+        elif i in case.derived:
+            if kk != "F":
+                out.append(("result handle x%d of a float operation reported as an integer" % i, None))
         else:
             if kk != "F" or not (lo - case.step <= v <= hi + case.step):
                 cls = None
@@ -193,8 +206,6 @@ def classify_solve(line, impl, cls):
     f = failing(case, impl)
     if not f:
         return cls
-    if fm.fast_path_applies(case) and not impl.endswith("lp=1") and not fm.fast_path_core(case):
-        return "fast_path"
     cs = [c for _, c in f]
     return cs[0] if all(c is not None for c in cs) else None
 
@@ -261,6 +272,218 @@ FAMILIES = [
 FAMILIES[1].corr = corr_lower
 FAMILIES[0].classify = classify_solve
 FAMILIES[1].classify = classify_lower
+
+# ------------------------------------------------------------------------------------------------ arithmetic / element routes (oracle-only)
+def _qf(x):
+    """exact rational of the f64 nearest to x"""
+    return Fraction(float(x))
+def _rand_fdom(rng, style):
+    if style == "half":
+        lo = Fraction(rng.randint(-20, 10), 2); hi = lo + Fraction(rng.randint(1, 30), 2)
+    elif style == "offgrid":
+        lo = _qf(round(rng.uniform(-10, 10), rng.choice([2, 4, 7]))); hi = _qf(float(lo) + round(rng.uniform(0.05, 8), rng.choice([1, 3, 7])))
+    elif style == "zero":
+        lo = _qf(-round(rng.uniform(0.1, 5), 3)); hi = _qf(round(rng.uniform(0.1, 5), 3))
+    elif style == "neg":
+        hi = -Fraction(rng.randint(1, 12), 2); lo = hi - Fraction(rng.randint(1, 20), 2)
+    elif style == "pos":
+        lo = Fraction(rng.randint(1, 8), 2); hi = lo + Fraction(rng.randint(1, 12), 2)
+    elif style == "big":
+        mag = 10 ** rng.randint(3, 6)
+        lo = _qf(rng.choice([1, 1, -1]) * round(rng.uniform(0.1, 1), 3) * mag); hi = lo + _qf(rng.choice([1, 10, 1000, mag // 10]) * rng.choice([0.5, 1, 2.5]))
+    else:  # single
+        lo = hi = _qf(rng.choice([Fraction(rng.randint(-12, 12), 4), round(rng.uniform(-6, 6), 3), 0.1, -2.7, 1 / 3.0]))
+    return lo, hi
+def _away(lo, hi):
+    """the box excludes (-1/2, 1/2): usable as a divisor"""
+    return lo >= Fraction(1, 2) or hi <= Fraction(-1, 2)
+def _expr_box(case, e):
+    """(lo, hi) of a fluent expression over the declared / derived boxes (interval arithmetic); None = unbounded (division by a
+    box touching zero)"""
+    e = e.strip()
+    if e.startswith("x") and e[1:].isdigit(): return case.decls[int(e[1:])][1], case.decls[int(e[1:])][2]
+    if e.startswith("f:"): return fm.h2q(e[2:]), fm.h2q(e[2:])
+    try: return Fraction(int(e)), Fraction(int(e))
+    except ValueError: pass
+    op = e[:e.index("(")]
+    a, b = fm._split_top(e[e.index("(") + 1:-1])
+    ba, bb = _expr_box(case, a), _expr_box(case, b)
+    if ba is None or bb is None: return None
+    if op == "add": return ba[0] + bb[0], ba[1] + bb[1]
+    if op == "sub": return ba[0] - bb[1], ba[1] - bb[0]
+    if op == "div":
+        if bb[0] <= 0 <= bb[1]: return None
+        c = [x / y for x in ba for y in bb]
+    else: c = [x * y for x in ba for y in bb]
+    return min(c), max(c)
+def _sub_exprs(e):
+    e = e.strip(); out = [e]
+    if "(" in e:
+        for a in fm._split_top(e[e.index("(") + 1:-1]): out += _sub_exprs(a)
+    return out
+def _mag_ok(case, exprs=()):
+    """every result handle and every node of the given fluent expressions stays below 2^45 steps in magnitude: beyond 2^52 steps
+    an f64 cannot tell two neighbouring grid points apart, bisection makes no progress and the engine does not look at its
+    limits while it descends (observed: a product of three values near 1e6 at precision 2 runs for minutes under a 400 ms
+    timeout; C15's matter, not this property's)"""
+    cap = case.step * 2 ** 45
+    for i in case.derived:
+        if max(abs(case.decls[i][1]), abs(case.decls[i][2])) > cap: return False
+    for e in exprs:
+        for sub in _sub_exprs(e):
+            b = _expr_box(case, sub)
+            if b is None or max(abs(b[0]), abs(b[1])) > cap: return False
+    return True
+NL_REL = ["le", "le", "ge", "ge", "eq", "eq", "lt", "gt"]
+def gen_farith_model(rng, entry_opt=False):
+    big = rng.random() < 0.15
+    prec = rng.choice([1, 1, 2, 2, 3]) if big else rng.choice([1, 2, 2, 3, 3, 3, 4, 4, 6, 6])
+    nv = rng.choice([2, 2, 3, 3, 4])
+    decls, pt = [], []
+    for _ in range(nv):
+        if rng.random() < 0.22:
+            lo = rng.randint(-4, 4); hi = lo + rng.choice([0, 1, 2, 3, 5])
+            if rng.random() < 0.3: lo, hi = rng.randint(1, 3), rng.randint(3, 6)
+            decls.append("I %d %d" % (lo, hi)); pt.append(Fraction(rng.randint(lo, hi)))
+        else:
+            style = rng.choice(["big", "big", "half", "pos"]) if big else rng.choice(["half", "half", "offgrid", "offgrid", "zero", "neg", "pos", "pos", "single"])
+            lo, hi = _rand_fdom(rng, style)
+            decls.append("F %s %s" % (hq(lo), hq(hi)))
+            pt.append(lo + (hi - lo) * Fraction(rng.randint(0, 16), 16) if rng.random() < 0.7 else _qf(rng.uniform(float(lo), float(hi))))
+            if not (lo <= pt[-1] <= hi): pt[-1] = lo
+    if not any(d.startswith("F") for d in decls):
+        decls[0] = "F %s %s" % (hq(Fraction(-2)), hq(Fraction(7))); pt[0] = Fraction(3, 2)
+    elem_vars, elem_done = None, False
+    if rng.random() < 0.2:
+        # an element post: dedicated index (partly outside 0..n-1 now and then) and a result covering the declared floats
+        if nv == 4: decls.pop(); pt.pop(); nv = 3
+        if not any(d.startswith("F") for d in decls):
+            decls[0] = "F %s %s" % (hq(Fraction(-2)), hq(Fraction(7))); pt[0] = Fraction(3, 2)
+        fl = [fm.Case("1 ; " + d + " ; solve").decls[0] for d in decls if d.startswith("F")]
+        lo = rng.choice([-1, 0, 0, 0, 1]); hi = max(lo + rng.randint(0, 3), 0)
+        decls.append("I %d %d" % (lo, hi)); pt.append(Fraction(rng.randint(max(lo, 0), hi)))
+        rlo, rhi = min(d[1] for d in fl) - rng.choice([0, 1, 1]), max(d[2] for d in fl) + rng.choice([0, 1, 1])
+        if rng.random() < 0.2: rlo = (rlo + rhi) / 2
+        decls.append("F %s %s" % (hq(rlo), hq(rhi))); pt.append(_qf(rlo))
+        elem_vars = (nv, nv + 1); nv += 2
+    head = [str(prec), "|".join(decls)]
+    posts = []
+    def cur():
+        return fm.Case(" ; ".join(head + posts + ["solve"]))
+    def const_tok(v, as_opd):
+        if rng.random() < 0.35 and v.denominator == 1 and abs(v) < 10 ** 9: return ("i:%d" if as_opd else "%d") % int(v)
+        return "f:" + hq(v)
+    n_arith = rng.choice([1, 1, 2, 2, 3])
+    for it in range(n_arith):
+        case = cur()
+        n = len(case.decls)
+        boxes = [(case.decls[i][1], case.decls[i][2]) for i in range(n)]
+        divisors = [i for i in range(n) if _away(*boxes[i])]
+        r = rng.random()
+        if r < 0.24:
+            # non-linear fluent constraint
+            def leaf():
+                if rng.random() < 0.12: return "f:" + hq(rng.choice(fm.NICE + [Fraction(0.1), Fraction(2.7)]))
+                return "x%d" % rng.randrange(n)
+            shape = rng.choice(["mul", "mul", "div", "muladd", "muladd", "mulsub", "divadd", "mulc", "nested"])
+            a, b, c = "x%d" % rng.randrange(n), "x%d" % rng.randrange(n), leaf()
+            dv = "x%d" % rng.choice(divisors) if divisors else "f:" + hq(rng.choice([Fraction(2), Fraction(-4), Fraction(1, 2), Fraction(0.3)]))
+            if shape == "mul": e = "mul(%s,%s)" % (a, b)
+            elif shape == "div": e = "div(%s,%s)" % (a, dv)
+            elif shape == "muladd": e = "add(mul(%s,%s),%s)" % (a, b, c)
+            elif shape == "mulsub": e = "sub(%s,mul(%s,%s))" % (c, a, b)
+            elif shape == "divadd": e = "add(div(%s,%s),%s)" % (a, dv, c)
+            elif shape == "mulc": e = "mul(%s,add(%s,%s))" % (a, b, const_tok(Fraction(rng.randint(-4, 6), 2), False))
+            else: e = "mul(mul(%s,%s),%s)" % (a, b, c)
+            ev = fm._expr_eval(case, e, pt)
+            val = ev[0] if ev is not None else Fraction(0)
+            rel = rng.choice(NL_REL)
+            if rng.random() < 0.3:
+                # expression compared with a VARIABLE (x.mul(y).eq(z) style)
+                other = "x%d" % rng.randrange(n)
+            else:
+                off = Fraction(rng.randint(0, 8), 4) * (1000 if big else 1)
+                if rel in ("le", "lt"): other = const_tok(val + off, False)
+                elif rel in ("ge", "gt"): other = const_tok(val - off, False)
+                else: other = const_tok(val if rng.random() < 0.8 else val + 1, False)
+            if not _mag_ok(case, [e]): continue
+            posts.append("new %s(%s,%s)" % ((rel, e, other) if rng.random() < 0.8 else ({"le": "ge", "lt": "gt", "ge": "le", "gt": "lt", "eq": "eq"}[rel], other, e)))
+            continue
+        if elem_vars and not elem_done and (r < 0.6 or it == n_arith - 1):
+            ix, rs = elem_vars
+            pool = [i for i in range(n) if i not in (ix, rs)]
+            lo_ix = int(case.decls[ix][1])
+            arr = [rng.choice(pool) for _ in range(rng.randint(max(1, lo_ix + 1), max(2, lo_ix + 1, 4)))]
+            elem_done = True
+            k = int(pt[ix]) if 0 <= pt[ix] < len(arr) else None
+            if k is not None and boxes[rs][0] <= pt[arr[k]] <= boxes[rs][1]: pt[rs] = pt[arr[k]]
+            posts.append("%s x%d %s x%d" % (rng.choice(["elem", "elem", "elemi", "elemx"]), ix, ",".join("x%d" % a for a in arr), rs))
+            continue
+        op = rng.choice(["add", "add", "sub", "sub", "mul", "mul", "mul", "div", "div", "abs", "min", "max", "sum", "sum", "fmin", "fmax"])
+        def opd(v=None):
+            if v is None: v = rng.randrange(n)
+            return "x%d" % v, pt[v]
+        if op in ("add", "sub", "mul", "div"):
+            (ta, va) = opd()
+            if op == "div":
+                if divisors and rng.random() < 0.85: tb, vb = opd(rng.choice(divisors))
+                else:
+                    vb = rng.choice([Fraction(2), Fraction(-4), Fraction(1, 2), _qf(0.3), Fraction(3), Fraction(-1, 2)]); tb = const_tok(vb, True)
+            elif rng.random() < 0.12:
+                vb = rng.choice(fm.NICE + [_qf(0.1), _qf(2.7), Fraction(0)]); tb = const_tok(vb, True)
+                if rng.random() < 0.3 and op != "div": ta, va, tb, vb = tb, vb, ta, va
+            else: tb, vb = opd()
+            if op == "mul" and big and abs(va * vb) > 10 ** 9: op = "add"
+            posts.append("arith %s %s %s" % (op, ta, tb))
+            pt.append({"add": va + vb, "sub": va - vb, "mul": va * vb}[op] if op != "div" else va / vb)
+        elif op == "abs":
+            ta, va = opd(); posts.append("arith abs %s" % ta); pt.append(abs(va))
+        else:
+            xs = [rng.randrange(n) for _ in range(rng.choice([1, 2, 2, 3, 3, 4]))]
+            if op in ("fmin", "fmax") and rng.random() < 0.8: xs = [v for v in xs if case.decls[v][0] == "F"] or xs
+            posts.append("arith %s %s" % (op, ",".join("x%d" % v for v in xs)))
+            vs = [pt[v] for v in xs]
+            pt.append(sum(vs) if op == "sum" else (min(vs) if op in ("min", "fmin") else max(vs)))
+        if not _mag_ok(cur()):
+            posts.pop(); pt.pop()
+    # 0-2 linear rows / bounds, preferably on result handles
+    case = cur()
+    n = len(case.decls)
+    while len(pt) < n: pt.append(Fraction(0))
+    results = sorted(case.derived)
+    scale = 1000 if big else 1
+    for _ in range(rng.choice([0, 1, 1, 2])):
+        v = rng.choice(results) if results and rng.random() < 0.75 else rng.randrange(n)
+        kind = rng.choice(["bound", "bound", "lin", "lin", "new", "newvv"])
+        off = Fraction(rng.randint(0, 8), 4) * scale
+        if kind == "bound":
+            rel = rng.choice(["leq", "geq", "leq", "geq", "eq"])
+            c = pt[v] + (off if rel == "leq" else -off if rel == "geq" else 0)
+            tok = ("f:" + hq(c)) if case.decls[v][0] == "F" or c.denominator != 1 else "i:%d" % int(c)
+            posts.append("props %s x%d %s" % (rel, v, tok))
+        elif kind == "lin":
+            u = rng.randrange(n)
+            cs = [rand_coeff(rng) or Fraction(1), rand_coeff(rng) or Fraction(1)]
+            rel = rng.choice(["le", "le", "eq"])
+            lhs = Fraction(float(cs[0])) * pt[v] + Fraction(float(cs[1])) * pt[u]
+            K = lhs + (off if rel == "le" else 0)
+            posts.append("lin %s %s,%s x%d,x%d %s" % (rel, hq(cs[0]), hq(cs[1]), v, u, hq(K)))
+        elif kind == "new":
+            rel = rng.choice(["le", "ge", "lt", "gt", "eq"])
+            c = pt[v] + (off if rel in ("le", "lt") else -off if rel in ("ge", "gt") else 0)
+            posts.append("new %s(x%d,%s)" % (rel, v, "f:" + hq(c)))
+        else:
+            u = rng.randrange(n)
+            if u != v: posts.append("new %s(x%d,x%d)" % (rng.choice(["le", "ge", "eq"]), v, u))
+    entry = ["solve"]
+    return " ; ".join(head + posts + entry + ["to 400"])
+
+def gen_farith(tier, rng):
+    n = 1500 if tier == "quick" else 40000
+    return [gen_farith_model(rng) for _ in range(n)]
+
+FAMILIES.append(Family("farith_random", "solvef", gen_farith, split=split_oracle, nontrivial=nontrivial, prop_judge=judge_solve))
+FAMILIES[-1].classify = classify_solve
 
 # ------------------------------------------------------------------------------------------------ props-level families (bit-exact tie)
 import math, struct
@@ -355,9 +578,53 @@ def rand_pspec(rng, info, allow_reif=True):
     if rng.random() < 0.1: b = "next(%s)" % b
     return ("%s %s %s" % (rel, b, xa)) if rng.random() < 0.3 else ("%s %s %s" % (rel, xa, b))
 
+def gen_propf_arith(rng):
+    """props-level Add / Sub (Propagators::add / sub over Var / Val / Next views): the result variable's domain is built around
+    the sum / difference of the operand boxes, shifted and resized by a few steps so that every branch of the six setter
+    calls (no change, quantise, clamp, precision tolerance, fail) is visited; 1-2 further propagators on the same variables"""
+    doms, info = rand_pdoms(rng, rng.choice([2, 2, 3]), small=rng.random() < 0.5)
+    kind = rng.choice(["add", "sub"])
+    a, b = rng.randrange(len(info)), rng.randrange(len(info))
+    def box(t): return (float(t[1]), float(t[2]))
+    (alo, ahi), (blo, bhi) = box(info[a]), box(info[b])
+    if kind == "sub": blo, bhi = -bhi, -blo
+    st = next((t[3] for t in info if t[0] == "F"), 0.5)
+    both_int = info[a][0] == "I" and info[b][0] == "I"
+    lo, hi = alo + blo, ahi + bhi
+    if math.isinf(lo) or math.isnan(lo): lo = -50.0
+    if math.isinf(hi) or math.isnan(hi): hi = 50.0
+    r = rng.random()
+    if both_int and r < 0.6:
+        l2 = int(lo) + rng.randint(-2, 2); h2 = max(l2, int(hi) + rng.randint(-2, 2))
+        doms.append("%d..%d" % (l2, h2)); info.append(("I", l2, h2))
+    else:
+        d = [0, 0, st, -st, 0.5 * st, -0.5 * st, 2.5 * st, -2.5 * st, 3.5 * st, -3.5 * st, 10 * st, -10 * st, 0.3, -0.3, 1e-5 * abs(hi)]
+        l2, h2 = lo + rng.choice(d), hi + rng.choice(d)
+        if r < 0.15: l2 = h2 = (lo + hi) / 2 + rng.choice(d)
+        elif r < 0.3: w = rng.choice([0.3, 0.5, 1.0, 1.5, 2.0, 5.0]) * st; l2 = lo + rng.random() * (hi - lo); h2 = l2 + w
+        if l2 > h2: l2, h2 = h2, l2
+        l2, h2 = _nudge(l2, rng.choice([0, 0, 1, -1])), _nudge(h2, rng.choice([0, 0, 1, -1]))
+        if l2 > h2: l2, h2 = h2, l2
+        st2 = st if rng.random() < 0.9 else rand_step(rng)
+        doms.append("F %s %s %s" % (fm.f2h(l2), fm.f2h(h2), fm.f2h(st2))); info.append(("F", l2, h2, st2))
+    s = len(info) - 1
+    def opd(i):
+        q = rng.random()
+        if q < 0.8: return "x%d" % i
+        if q < 0.9:
+            v = box(info[i])[rng.randint(0, 1)]
+            if math.isinf(v): v = 0.0
+            return "f:" + fm.f2h(v + rng.choice([0, st, 0.5 * st, -0.25])) if rng.random() < 0.7 else "i:%d" % int(math.floor(v))
+        return "next(x%d)" % i
+    ps = ["%s %s %s x%d" % (kind, opd(a), opd(b), s)]
+    for _ in range(rng.choice([0, 0, 1, 1, 2])):
+        ps.append(rand_pspec(rng, info, allow_reif=False) if rng.random() < 0.6 else "%s x%d x%d x%d" % (rng.choice(["add", "sub"]), rng.randrange(len(info)), rng.randrange(len(info)), rng.randrange(len(info))))
+    rng.shuffle(ps)
+    return " ; ".join(["|".join(doms)] + ps)
+
 def gen_propf(tier, rng):
     n = 6000 if tier == "quick" else 200000
-    out = []
+    out = [gen_propf_arith(rng) for _ in range(n // 4)]
     for _ in range(n):
         nv = rng.choice([1, 2, 2, 3, 3])
         doms, info = rand_pdoms(rng, nv)
@@ -435,6 +702,7 @@ def corr_prop(line, impl, mpart):
     # (practically non-terminating) propagation on both sides is not compared further
     if mpart == "FUEL": return True
     return impl == mpart
-FAMILIES[2].classify = classify_propf
-FAMILIES[2].corr = corr_prop
-FAMILIES[3].corr = corr_search
+_byname = {f.name: f for f in FAMILIES}
+_byname["fprop_exact"].classify = classify_propf
+_byname["fprop_exact"].corr = corr_prop
+_byname["fsearch_exact"].corr = corr_search
